@@ -38,9 +38,20 @@ def main():
         else:
             ks.append(int(a))
     wt = '/tmp/seed_' + pid
-    for k in ks or (1, 2):
+    made_wt = False
+    if not os.path.isdir(wt):
+        # no agent worktree around any more: confirm in a scratch worktree of /repo's HEAD, removed afterwards
+        sh('git -C /repo worktree add --detach %s HEAD' % wt)
+        made_wt = True
+    for k in ks or (1, 2, 3, 4):
         patch = os.path.join(wt, 'seed', 'patch%d.diff' % k)
         demo = 'seed/demo%d.py' % k
+        stored = os.path.join(VERIF, 'seeded', '%s_%d' % (pid, k))
+        if not os.path.exists(patch) and os.path.exists(os.path.join(stored, 'patch.diff')):
+            # restore the stored change into the scratch worktree
+            os.makedirs(os.path.join(wt, 'seed'), exist_ok=True)
+            shutil.copy(os.path.join(stored, 'patch.diff'), patch)
+            shutil.copy(os.path.join(stored, 'demo.py'), os.path.join(wt, demo))
         if not os.path.exists(patch):
             continue
         res = {'property': pid, 'k': k}
@@ -48,7 +59,7 @@ def main():
         rc0, _ = sh('PYTHONPATH=%s /venv/bin/python %s' % (wt, demo), cwd=wt)
         rca, out = sh('git apply %s' % patch, cwd=wt)
         rc1, dout = sh('PYTHONPATH=%s /venv/bin/python %s' % (wt, demo), cwd=wt)
-        rcb, bout = sh('/tmp/seedtools/baseline.py %s' % wt)
+        rcb, bout = sh('%s %s' % (os.path.join(VERIF, 'harness', 'baseline.py'), wt))
         sh('git checkout -- eos', cwd=wt)
         res['demo_without'] = rc0
         res['demo_with'] = rc1
@@ -78,10 +89,16 @@ def main():
                     sh('git -C /repo checkout -- .')
         d = os.path.join(VERIF, 'seeded', '%s_%d' % (pid, k))
         os.makedirs(d, exist_ok=True)
-        shutil.copy(patch, os.path.join(d, 'patch.diff'))
-        shutil.copy(os.path.join(wt, demo), os.path.join(d, 'demo.py'))
+        if os.path.abspath(patch) != os.path.abspath(os.path.join(d, 'patch.diff')):
+            shutil.copy(patch, os.path.join(d, 'patch.diff'))
+            shutil.copy(os.path.join(wt, demo), os.path.join(d, 'demo.py'))
         meta = {}
         mp = os.path.join(wt, 'seed', 'meta%d.json' % k)
+        if os.path.exists(os.path.join(d, 'meta.json')) and not os.path.exists(mp):
+            try:
+                meta = json.load(open(os.path.join(d, 'meta.json')))
+            except Exception:
+                meta = {}
         if os.path.exists(mp):
             try:
                 meta = json.load(open(mp))
@@ -90,6 +107,8 @@ def main():
         meta['verification'] = res
         json.dump(meta, open(os.path.join(d, 'meta.json'), 'w'), indent=1)
         print(json.dumps(res, indent=1))
+    if made_wt:
+        sh('git -C /repo worktree remove --force %s' % wt)
 
 
 main()
